@@ -21,7 +21,7 @@ def setup():
 def dispatch(pid, tier):
     from . import layout, graph, vft, inherit, enums, impl, scope
     table = {
-        "C04": lambda: vft.run_vft("C04", tier),
+        "C04": lambda: vft.run_c04(tier),
         "C16": lambda: vft.run_c16(tier),
         "C05": lambda: impl.run_impl("C05", tier),
         "C11": lambda: scope.run_scope("C11", tier),
